@@ -23,7 +23,17 @@ fn plain(db: &Db, rng: &mut Rng) -> String {
 }
 
 fn other(db: &Db, rng: &mut Rng) -> String {
-    match rng.below(16) {
+    match rng.below(24) {
+        // a conversion that only changes the notation of a *new* number must not touch `ans`
+        16 => format!("{} to {}", 2 + rng.below(5000), rng.pick(&["hex", "oct", "bin", "base 7", "sci", "eng", "frac", "digits 12", "digits"])),
+        17 => format!("{}|{} -> {}", 1 + rng.below(50), 1 + rng.below(50), rng.pick(&["frac", "digits 20", "base 12", "sci"])),
+        18 => format!("{} {} -> {}", 1 + rng.below(9), db.rand_name(rng), rng.pick(&["hex", "sci", "digits 8"])),
+        // names that are resolved on the fly (chemical formulas, substances): nothing may be left behind in the database
+        19 => (*rng.pick(&["C2H6O", "NaCl", "H2O2", "C8H10N4O2", "CH3COOH", "Fe2O3"])).into(),
+        20 => format!("molar_mass of {}", rng.pick(&["C2H6O", "NaCl", "H2O2", "water", "gold"])),
+        21 => format!("search {}", rng.pick(&["C2H6O", "NaCl", "meter", "H2O2", "gold"])),
+        22 => (*rng.pick(&["C2H6Oo", "NaCll", "nosuchh", "H2O22x"])).into(),
+        23 => format!("{} water", 1 + rng.below(9)),
         0 => format!("{} {} -> {}", 1 + rng.below(9), db.rand_name(rng), db.rand_name(rng)),   // conversion (often an error)
         1 => "12 ft -> m".into(),
         2 => "ans -> 1".into(),
